@@ -724,14 +724,22 @@ func FetchWithParallelRangeRequests(client *http.Client, rawURL string, cfg *Fet
 		}
 		defer resp.Body.Close()
 
-		if resp.StatusCode != http.StatusPartialContent && resp.StatusCode != http.StatusOK {
+		// Only a 206 carries the requested range. A 200 is the whole
+		// resource (the server ignored Range); concatenating it as if it
+		// were one chunk would corrupt the result.
+		if resp.StatusCode != http.StatusPartialContent {
 			resultCh <- chunkResult{index: index, err: fmt.Errorf("range request returned %d", resp.StatusCode), hedge: isHedge}
 			return
 		}
 
-		data, err := io.ReadAll(resp.Body)
+		want := rangeEnd - rangeStart + 1
+		data, err := io.ReadAll(io.LimitReader(resp.Body, want+1))
 		if err != nil {
 			resultCh <- chunkResult{index: index, err: err, hedge: isHedge}
+			return
+		}
+		if int64(len(data)) != want {
+			resultCh <- chunkResult{index: index, err: fmt.Errorf("range request for %d bytes returned %d", want, len(data)), hedge: isHedge}
 			return
 		}
 
@@ -796,7 +804,7 @@ func FetchWithParallelRangeRequests(client *http.Client, rawURL string, cfg *Fet
 	// Receive loop. `expected` grows as we launch hedges; we exit when
 	// we have a successful result for every chunk OR when we've drained
 	// every launched goroutine and some chunks are still missing.
-	for chunksRemaining > 0 {
+	for chunksRemaining > 0 && expected > 0 {
 		cr := <-resultCh
 		expected--
 		if cr.err != nil {
